@@ -29,6 +29,8 @@ type subjHost struct {
 }
 
 type instDriver struct {
+	scaled      []int64 // floor(65535*power/total) per table index, computed independently of gpbft.PowerTable
+	scaledTotal int64
 	r       *rng
 	ctx     context.Context
 	backend *signing.FakeBackend
@@ -131,6 +133,9 @@ func newInstDriver(r *rng, members int, subjectPower int64, powers []int64, inpu
 	}
 	d.pt = gpbft.NewPowerTable()
 	must(d.pt.Add(entries...))
+	// the scaled powers as the protocol defines them, computed by the harness itself: the driver, its monitors and the
+	// model's configuration never use the implementation's own scaling
+	d.scaled, d.scaledTotal = indepScaled(d.pt.Entries)
 	d.supp = gpbft.SupplementalData{PowerTable: ptCid}
 	d.subject = 1
 	d.host = &subjHost{d: d}
@@ -152,7 +157,7 @@ func (d *instDriver) cfgTerm() string {
 	for a := 0; a < 40; a++ {
 		ras = append(ras, d.p.VerifRebroadcastAfter(a))
 	}
-	return fmt.Sprintf("(mkCfg %s %s %d %d %d %s %s)", cListZ(d.pt.ScaledPower), cZ(d.pt.ScaledTotal), d.p.VerifMaxLookahead(),
+	return fmt.Sprintf("(mkCfg %s %s %d %d %d %s %s)", cListZ(d.scaled), cZ(d.scaledTotal), d.p.VerifMaxLookahead(),
 		d.p.VerifRebroadcastImmediatelyAfter(), d.p.VerifPhaseTimeout(0, true), cListZ(tos), cListZ(ras))
 }
 
@@ -166,16 +171,16 @@ func (d *instDriver) justify(round uint64, phase gpbft.Phase, value *gpbft.ECCha
 	order := shuffled(d.r, len(d.pt.Entries))
 	var chosen []int
 	for _, i := range order {
-		if d.pt.Entries[i].ID == d.subject || d.pt.ScaledPower[i] == 0 {
+		if d.pt.Entries[i].ID == d.subject || d.scaled[i] == 0 {
 			continue
 		}
 		chosen = append(chosen, i)
-		pw += d.pt.ScaledPower[i]
-		if indepStrong(pw, d.pt.ScaledTotal) {
+		pw += d.scaled[i]
+		if indepStrong(pw, d.scaledTotal) {
 			break
 		}
 	}
-	if !indepStrong(pw, d.pt.ScaledTotal) {
+	if !indepStrong(pw, d.scaledTotal) {
 		return nil
 	}
 	sort.Ints(chosen)
